@@ -471,6 +471,11 @@ pub fn varied_case(rng: &mut Rng, cmds: Vec<Cmd>, scripts: Vec<Script>) -> Case 
 /// See `varied_case`; for a case that already exists (fields it sets are overwritten).
 pub fn vary_transport(rng: &mut Rng, case: &mut Case) {
     let mut r = Rng::for_case(rng.next(), "vary", 0);
+    // now and then the connection before this one on the same thread was the heavy one (see
+    // `Case::heavy_predecessor`); left to the predecessors' own choice it is too rare to rely on
+    if r.chance(1, 120) {
+        case.heavy_predecessor = true;
+    }
     if r.bool() {
         case.write_limit = *r.pick(&[65_536usize, 16_384, 4096, 1000, 100, 7, 1]);
     }
